@@ -7,6 +7,8 @@ running simulation) + truth tables / reference models of the bundled filters (di
 
 import copy
 import functools
+import collections
+import collections.abc
 import itertools
 
 from .. import core, harness, vloop
@@ -38,7 +40,7 @@ TIMEOUT = {'quick': 300, 'thorough': 3000}
 
 FKINDS = ['pass_true', 'pass_obj', 'rej_false', 'rej_none', 'rej_zero', 'rej_empty',
           'edit_new', 'edit_inplace_true', 'edit_inplace_ret', 'edit_inplace_rej', 'empty_dict',
-          'edit_new_drop', 'negate_value']
+          'edit_new_drop', 'negate_value', 'edit_userdict', 'empty_chainmap']
 
 
 def apply_script(kind, n, data):
@@ -69,6 +71,11 @@ def apply_script(kind, n, data):
         new = dict(data)
         new['value'] = not data.get('value')
         return new
+    if kind == 'edit_userdict':
+        # any MutableMapping is new event data, not only a dict
+        return collections.UserDict({**data, f"u{n}": n})
+    if kind == 'empty_chainmap':
+        return collections.ChainMap()       # an empty (falsy) mapping is still a mapping
     if kind == 'edit_inplace_true':
         data[f"i{n}"] = n
         return True
@@ -90,7 +97,7 @@ def ref_pipeline(kinds, data, source):
     for n, kind in enumerate(kinds):
         seen.append(dict(data))
         ret = apply_script(kind, n, data)
-        if isinstance(ret, dict):
+        if isinstance(ret, collections.abc.MutableMapping):
             data = ret
         elif not ret:
             return False, None, seen
@@ -311,6 +318,13 @@ def delta_cases(ctx):
                 v = round(v + rng.uniform(-3, 3), rng.randrange(0, 3))
             else:
                 v = v + rng.randrange(-4, 5)
+            if floats and rng.random() < 0.12:
+                # a sensor glitch: not-a-number or an infinite reading (possibly repeated); the
+                # difference to the last passed value is then NaN (never '>= delta') or infinite
+                walk.append(rng.choice(['nan', 'inf', '-inf', 'inf']))
+                if rng.random() < 0.5:
+                    walk.append(walk[-1])
+                continue
             walk.append(v)
         yield {'part': 'delta', 'delta': delta, 'walk': walk}
 
@@ -320,8 +334,11 @@ def run_delta(case, ctx):
     flt = edzed.Delta(case['delta'])
     last = None
     first = True
-    for k, v in enumerate(case['walk']):
-        got = flt({'value': v, 'previous': case['walk'][k - 1] if k else edzed.UNDEF})
+    walk = [float(v) if isinstance(v, str) else v for v in case['walk']]
+    for k, v in enumerate(walk):
+        if isinstance(case['walk'][k], str):
+            ctx.count('delta_nonfinite_values')
+        got = flt({'value': v, 'previous': walk[k - 1] if k else edzed.UNDEF})
         exp = first or abs(last - v) >= case['delta']
         ctx.count('delta_steps')
         if bool(got) != exp:
